@@ -29,7 +29,7 @@ RULE = (
     " definitions may inherit from another definition."
 )
 ASSUMPTIONS = [
-    "base version definitions carry flags == VER_FLG_BASE exactly (as the repository's own test helper builds them)",
+    "a version definition is the base definition iff bit VER_FLG_BASE of its flags is set (ELF gABI: vd_flags is a bit mask)",
     "state after a refused deletion is not judged beyond the exception type",
 ]
 BUDGET = {"quick": (10000, 35), "thorough": (300000, 480)}
@@ -71,6 +71,8 @@ def gen_case(rng, tier, index):
             # the retargeted symbol may be one that a symbol difference
             # names (retargeting those is refused)
             "retarget_any": r2.random() < 0.4,
+            "base_flags": r2.choice([1, 1, 1, 3, 5]),
+            "other_flags": r2.choice([0, 0, 0, 2, 4]),
             "extra_def": rng.random() < 0.5, "extra_need": rng.random() < 0.5,
             "driver": rng.choice(["ctx", "ctx", "passes"]),
             # the uses of one deleted symbol are first retargeted to a
@@ -135,9 +137,11 @@ def build(case):
              "import": [], "export": [], "fwd": {}, "cfi": [], "exprs": {}}
     defs, needed, entries = {}, {}, {}
     if case["fmt"] == "elf":
-        defs[1] = (["libself.so"], 1)
+        # vd_flags is a bit mask (VER_FLG_BASE 1, VER_FLG_WEAK 2,
+        # VER_FLG_INFO 4): the base definition is the one with bit 0 set
+        defs[1] = (["libself.so"], case.get("base_flags", 1))
         if case["extra_def"]:
-            defs[9] = (["UNUSED_DEF"], 0)
+            defs[9] = (["UNUSED_DEF"], case.get("other_flags", 0))
         if case["extra_need"]:
             needed.setdefault("libz", {})[10] = "UNUSED_NEED"
         m.aux_data["elfSymbolVersions"] = gtirb.AuxData(
@@ -164,10 +168,11 @@ def build(case):
                 # every second definition inherits from the one defined
                 # before it (its name list continues with the parent's name)
                 parents = []
-                older = [v for k, v in defs.items() if v[1] == 0 and k != vid]
+                older = [v for k, v in defs.items() if not v[1] & 1 and k != vid]
                 if older and vid % 2 == 0:
                     parents = [older[-1][0][0]]
-                defs.setdefault(vid, ([f"VER_{vid}"] + parents, 0))
+                defs.setdefault(vid, ([f"VER_{vid}"] + parents,
+                                      case.get("other_flags", 0)))
                 entries[s] = (vid, sd["hidden"])
                 model["entries"][i] = vid
             elif p == "ver-need":
@@ -358,7 +363,7 @@ def run_case(case):
             want_entries)
         keep = {v[0] for v in want_entries.values()}
         want_defs = {k: v for k, v in model["defs"].items()
-                     if k in keep or v[1] == 1}
+                     if k in keep or v[1] & 1}
         cmp("version-definitions", dict(defs), want_defs)
         want_need = {}
         for lib, vs in model["needed"].items():
